@@ -289,6 +289,7 @@ def run(P, R, tier):
     R.undecided += ["values of the Debye-Hueckel constants and of the ionic strength at which the formulas are evaluated",
                     "exchange and surface activity conventions (gflag 4, 6)", "Pitzer and SIT excess-energy sums, Gibbs-Duhem consistency, water activity / osmotic coefficient"]
     water_rule(P, R)
+    sitpair_rule(P, R)
     present_rule(P, R)
     llnlbracket_rule(P, R)
     # ------------------------------------------------------------------ writers of gflag
@@ -652,3 +653,90 @@ def llnlbracket_rule(P, R):
         else:
             R.violation(RULE, inst, "for %g C on the grid %s the search ends with ifirst = %s, ilast = %s: A, B and B-dot are interpolated between columns that are not the "
                         "neighbours of the temperature" % (tc, table, lo, hi), file=f["file"], line=loop[1], function=f["q"])
+
+
+def sitpair_rule(P, R):
+    """"In Pitzer and SIT databases the solute activity coefficients and the ... osmotic coefficient are thermodynamically consistent".  A
+    SIT interaction with a constant coefficient is a term g = eps m0 m1 of the excess Gibbs energy, homogeneous of degree two in the
+    molalities: it adds d g / d m_i to each ln gamma_i and g itself to (phi - 1) sum m, so on every path of the TYPE_SIT_EPSILON case
+        m0 * (increment of LGAMMA[i0]) + m1 * (increment of LGAMMA[i1]) = 2 * (increment of OSMOT)
+    as a polynomial identity (Euler's theorem).  The case halved the osmotic increment when both species were neutral."""
+    RULE = "C16.sitpair"
+    R.rule(RULE, "sit(), constant epsilon: on every path m0 dLGAMMA[i0] + m1 dLGAMMA[i1] = 2 dOSMOT (gamma and osmotic increments of one Gibbs-energy term)", minimum=1)
+    f = P.one("Phreeqc::sit")
+    sw = [x for x in T.walk(f["body"]) if x[0] == "Switch"]
+    seg = None
+    for s_ in sw:
+        body = s_[3][2] if T.is_node(s_[3]) and s_[3][0] == "Compound" else []
+        cur, on = [], False
+        for st in body:
+            lab = []
+            while T.is_node(st) and st[0] == "Case":
+                lab.append(T.text(st[2]).split("::")[-1])
+                st = st[4]
+            if lab:
+                on = "TYPE_SIT_EPSILON" in lab
+                cur = [] if on else cur
+            if on:
+                cur.append(st)
+                if T.is_node(st) and st[0] == "Break":
+                    seg = cur
+                    on = False
+    if not seg:
+        R.anchor_missing(RULE, "sit(): case TYPE_SIT_EPSILON not found")
+        return
+
+    def sym(n):
+        t = "".join(T.text(n, -40).split())
+        return t
+
+    def rat(n):
+        n = T.strip_casts(n)
+        if T.is_node(n) and n[0] in ("Index", "Call") and "sit_M" in T.text(n, -40):
+            return RF.Rat.sym("M[" + "".join(T.text(n, -40).split()).split("[")[-1].split(",")[-1].rstrip(")]") + "]")
+        if T.is_node(n) and n[0] == "Paren":
+            return rat(n[2])
+        if T.is_node(n) and n[0] == "Bin" and n[2] in ("+", "-", "*", "/"):
+            a, b = rat(n[3]), rat(n[4])
+            return a + b if n[2] == "+" else a - b if n[2] == "-" else a * b if n[2] == "*" else a / b
+        return RF.from_tree(n, sym)
+
+    def paths(stmts):
+        out = [[]]
+        for st in stmts:
+            if T.is_node(st) and st[0] == "Compound":
+                sub = paths(st[2])
+                out = [a + b for a in out for b in sub]
+            elif T.is_node(st) and st[0] == "If":
+                th = paths([st[3]])
+                el = paths([st[4]]) if T.is_node(st[4]) else [[]]
+                out = [a + b for a in out for b in th + el]
+            elif T.is_node(st) and st[0] == "Bin" and st[2] == "+=":
+                out = [a + [st] for a in out]
+        return out
+    n = 0
+    for k, pth in enumerate(paths(seg)):
+        inc = {}
+        try:
+            for st in pth:
+                tgt = "".join(T.text(st[3], -40).split())
+                inc[tgt] = inc.get(tgt, RF.Rat.const(0)) + rat(st[4])
+        except RF.NotRational as e:
+            R.anchor_missing(RULE, "sit(): increment not rational (%s)" % e)
+            return
+        lg = sorted(t for t in inc if "LGAMMA" in t)
+        osm = [t for t in inc if t.endswith("OSMOT")]
+        if len(lg) != 2 or len(osm) != 1:
+            R.anchor_missing(RULE, "sit(): path %d of the epsilon case has increments of %s" % (k, sorted(inc)))
+            return
+        idx = [t.split("[")[-1].split(",")[-1].rstrip(")]") for t in lg]
+        lhs = RF.Rat.sym("M[%s]" % idx[0]) * inc[lg[0]] + RF.Rat.sym("M[%s]" % idx[1]) * inc[lg[1]]
+        n += 1
+        inst = "path%d" % k
+        if lhs.same(inc[osm[0]] * RF.Rat.const(2)):
+            R.ok(RULE, inst, "m0 dLG0 + m1 dLG1 = 2 dOSMOT")
+        else:
+            R.violation(RULE, inst, "case TYPE_SIT_EPSILON: on one path the osmotic increment is %r while the log-gamma increments give %r for twice that amount: activity coefficients "
+                        "and osmotic coefficient do not come from one excess Gibbs energy (Gibbs-Duhem fails)" % (inc[osm[0]], lhs), file=f["file"], line=pth[0][1], function=f["q"])
+    if n < 1:
+        R.anchor_missing(RULE, "sit(): no path through the epsilon case")
